@@ -26,7 +26,7 @@ ASSUMPTIONS = [
     "merge_and_renumber: object numbers are compared as a relation (per input the old->new map must be a function and injective, maps of different inputs must have disjoint images), not as specific numbers",
     "drop_duplicates returns rows ordered by the duplicates column (documented by its sort); ties in the decision column admit any of the tied rows",
 ]
-BUDGET = {"quick": {"examples": 1400, "seconds": 85}, "thorough": {"examples": 5000, "seconds": 540}}
+BUDGET = {"quick": {"examples": 1100, "seconds": 85}, "thorough": {"examples": 5000, "seconds": 540}}
 
 C = oracle.MOTL_COLUMNS
 IX = {c: i for i, c in enumerate(C)}
@@ -360,9 +360,19 @@ def run(case):
                     removed = True
                 push(r, got)
         elif k == "renumber_particles":
+            small = len(rows) <= 30
+            if small:  # queries before an in-place change must not be remembered after it
+                call(out, "split_by_feature", lambda: m.split_by_feature("subtomo_id"))
+                call(out, "get_unique_values", lambda: m.get_unique_values("subtomo_id"))
             ok, _ = call(out, "renumber_particles", lambda: m.renumber_particles())
             if not ok:
                 return out
+            if small:
+                ok2, parts = call(out, "split_by_feature", lambda: m.split_by_feature("subtomo_id"))
+                if ok2:
+                    got_parts = [[int(v) for v in p_.df["subtomo_mean"].tolist()] for p_ in parts]
+                    want_parts = [[int(r_[IX[TAG]])] for r_ in rows]
+                    out.check(got_parts == want_parts, "split:stale_after_inplace_renumbering", f"{got_parts[:6]} vs {want_parts[:6]}")
             exp = [list(r_) for r_ in rows]
             for n_, r_ in enumerate(exp, 1):
                 r_[IX["subtomo_id"]] = float(n_)
